@@ -25,7 +25,9 @@ RULE = ('operation histories over a pool of documents, elements, text nodes and 
         'extend, normalize, deep cloneNode; indices -2..2 and out of range; element, text and fragment arguments) applied to every '
         'distinct state reachable by admissible operations within the depth bound (states enumerated breadth-first by the Model), '
         'and all read-only views on each of those states; (b) random histories of up to 40 operations over a larger pool (two '
-        'documents, attribute-held fragments), mostly admissible; (c) malformed: histories with a high rate of inadmissible '
+        'documents, attribute-held fragments), mostly admissible; (a\') normalize / cloneNode on and above elements that hold fragments or '
+        'elements in their attributes (holders without a child list, with removed children, with children; adjacent and empty text '
+        'nodes; nested holders); (c) malformed: histories with a high rate of inadmissible '
         'arguments (listed nodes, ancestors, self, documents, foreign-document nodes, a fragment into itself). '
         'Non-trivial = at least two child-list edits (hist) / a non-empty prefix (fan).')
 TRUSTED = ['modelled, not verified: Python object identity as heap positions; Python list.insert/list.pop index conventions; the order in '
@@ -365,7 +367,7 @@ def _below(g, n, acc=None, depth=0):
     return acc
 
 
-def _adjacent_text(g, n, seen=None):
+def _adjacent_text(g, n, seen=None, attrs=False):
     seen = set() if seen is None else seen
     if n in seen:
         return False
@@ -374,7 +376,10 @@ def _adjacent_text(g, n, seen=None):
     for a, b in zip(ks, ks[1:]):
         if g[a][0] == 1 and g[b][0] == 1:
             return True
-    return any(_adjacent_text(g, c, seen) for c in ks if g[c][0] != 1)
+    below = [c for c in ks if g[c][0] != 1]
+    if attrs:
+        below += [v for _, v in g[n][5] if 0 <= v < len(g) and g[v][0] != 1]
+    return any(_adjacent_text(g, c, seen, attrs) for c in below)
 
 
 def _judge_step(op, g_before, gi, gm, creators, iout, mout):
@@ -411,8 +416,21 @@ def _verdict(violation, key, what, expected=None):
     return dict(violation=violation, key=key, what=what, expected=expected)
 
 
+def _numbering_defined(op, mentry, iout, mout):
+    """Objects are identified by their creation order.  That order is defined for everything but two situations, both
+    of which only arise outside the property's precondition: normalize calling itself twice on one node (a node
+    reachable twice through child lists / attribute values: the texts created the first time become unreachable) and a
+    normalize / cloneNode that raises half-way (what it created so far is unreachable).  The Model reports the first
+    (norm_walk_ok); the outcomes show the second."""
+    if op[0] == NORMALIZE:
+        return len(mentry) > 4 and mentry[4] == 1 and iout[0] == 0 and mout[0] == 0
+    if op[0] == CLONE:
+        return iout[0] == 0 and mout[0] == 0
+    return True
+
+
 def _compare_trace(ops, itr, mtr, creators, g, all_adm):
-    """-> (verdict or None, graph after, all_adm)"""
+    """-> (verdict or None, graph after (None: the rest of the case cannot be compared), all_adm)"""
     for k, op in enumerate(ops):
         if k >= len(mtr) or k >= len(itr):
             if len(mtr) != len(itr):
@@ -420,41 +438,37 @@ def _compare_trace(ops, itr, mtr, creators, g, all_adm):
             return None, g, all_adm
         adm, mout, md = mtr[k][:3]
         iout, idl = itr[k]
-        before_adm = all_adm
         all_adm = all_adm and bool(adm)
         if mout == [-3] or iout == [-3]:
-            if mout != iout and not before_adm:
-                return None, None, all_adm
             if mout != iout:
                 v = _verdict(bool(all_adm), 'C06:hang', 'step %d %s: implementation %s, Model %s' % (k, describe_op(op), iout, mout), mout)
                 return v, g, all_adm
             return None, g, all_adm
         if mout == [-1] or iout == [-1]:
-            if mout != iout and not before_adm:
-                return None, None, all_adm      # identities already differ after an operation outside the precondition
             if mout != iout:
                 return _verdict(False, 'C06:outside-model', 'step %d is outside the Model' % k), g, all_adm
             return None, g, False
         if iout != mout or idl != md:
+            if iout == mout and not _numbering_defined(op, mtr[k], iout, mout):
+                return None, None, all_adm
             gi, gm = apply_delta(g, idl), apply_delta(g, md)
-            if not before_adm:
-                # an earlier operation was outside the property's precondition: the graph is no longer a tree (nodes listed
-                # twice, cycles, documents as children) and the numbering of objects that only normalize/cloneNode could
-                # reach twice is not defined; the property says nothing here and neither does the correspondence
-                return None, None, all_adm
-            if not all_adm and op[0] in (NORMALIZE, CLONE):
-                # normalize / cloneNode outside their precondition (a fragment receiver whose items are shared, attribute
-                # maps): objects reached twice are created twice and only the last copy stays reachable -- the creation-order
-                # numbering the two sides are compared by is not defined for them
-                return None, None, all_adm
             if not all_adm:
-                return _verdict(False, 'C06:inadmissible-divergence',
-                                'the implementation and the Model part ways on the inadmissible operation %d %s (implementation %s %s, Model %s %s)' % (
-                                    k, describe_op(op), iout, idl, mout, md)), g, all_adm
+                viol, what = False, 'the operation or an earlier one is outside "detached or fragment arguments": the property makes no claim'
+                key = 'C06:unclaimed-divergence'
+                if (op[0] == NORMALIZE and iout[0] == 0 and len(mtr[k]) > 4 and mtr[k][4] == 1
+                        and _adjacent_text(gi, op[1], attrs=True) and not _adjacent_text(gm, op[1], attrs=True)):
+                    # normalize was called exactly once on every node below (through child lists and attribute values),
+                    # it returned, and one of those nodes still has two adjacent text children: the clause "normalization
+                    # merges adjacent text" is broken on the implementation's own result, whatever happened before
+                    viol, key = True, 'C06:normalize:attribute'
+                    what = 'adjacent text nodes remain below the normalized node (in a fragment or element held in an attribute)'
+                return _verdict(viol, key,
+                                'step %d %s: the implementation and the Model part ways; %s (implementation %s %s, Model %s %s)' % (
+                                    k, describe_op(op), what, iout, idl, mout, md)), g, all_adm
             viol, what = _judge_step(op, g, gi, gm, creators, iout, mout)
             return _verdict(viol, 'C06:%s' % OPNAMES[op[0]], 'step %d %s: %s (implementation %s %s, Model %s %s)' % (
                 k, describe_op(op), what, iout, idl, mout, md), [mout, md]), g, all_adm
-        if len(mtr[k]) > 3 and all_adm and mtr[k][3] == 0:
+        if op[0] == NORMALIZE and len(mtr[k]) > 3 and all_adm and mtr[k][3] == 0:
             # the two sides agree, and the tree they agree on is not the normalized tree the Spec (norm_tree) prescribes
             return _verdict(True, 'C06:normalize:spec', 'step %d %s: the tree below the node is not the normalized tree '
                             '(adjacent text merged, text content kept) of the tree before' % (k, describe_op(op))), g, all_adm
@@ -926,6 +940,99 @@ def rand_history(rng, nops, p_bad, two_docs, attrs):
     return dict(kind='hist', ops=ops, queries=qs)
 
 
+def attr_history(rng):
+    """normalize on (and above) elements that hold fragments / elements in their attributes: holders that never had a
+    child list, holders whose children were removed again, holders with children; runs of adjacent and empty text nodes
+    inside the held fragments; nesting (a fragment in an attribute of an element inside an attribute-held fragment).
+    Every node is used once, so the graph is a tree through child lists and attribute values."""
+    ops = [[CDOC]]
+    count = [1]
+
+    def new(op):
+        ops.append(op)
+        count[0] += 1
+        return count[0] - 1
+
+    def elem():
+        return new([CELEM, 0, rng.randint(0, 2)])
+
+    def text():
+        return new([CTEXT, 0, rng.choice([[], [97], [98], [32], [97, 98]])])
+
+    def content(depth):
+        items = []
+        for _ in range(rng.randint(1, 5)):
+            r = rng.random()
+            if r < 0.65:
+                items.append(text())
+            elif r < 0.85 or depth <= 0:
+                e = elem()
+                for _ in range(rng.randint(0, 3)):
+                    ops.append([APPEND, e, text()])
+                items.append(e)
+            else:
+                items.append(holder(depth - 1))
+        return items
+
+    def frag(depth):
+        f = new([CFRAG, 0])
+        its = content(depth)
+        if rng.random() < 0.3:
+            ops.append([EXTLIST, f, its])
+        else:
+            for x in its:
+                ops.append([APPEND, f, x])
+        return f
+
+    def holder(depth):
+        e = elem()
+        state = rng.choice(['never', 'never', 'removed', 'one', 'two', 'later'])
+        if state == 'removed':
+            ops.append([APPEND, e, elem()])
+            ops.append([POP, e, -1])
+        elif state == 'one':
+            ops.append([APPEND, e, text()])
+        elif state == 'two':
+            ops.append([APPEND, e, text()])
+            ops.append([APPEND, e, text()])
+        for key in rng.sample([0, 1], rng.randint(1, 2)):
+            if rng.random() < 0.8:
+                v = frag(depth)
+            else:
+                v = elem()
+                for _ in range(rng.randint(0, 3)):
+                    ops.append([APPEND, v, text()])
+            ops.append([SETATTR, e, key, v])
+        if state == 'later':
+            for x in content(0):
+                ops.append([APPEND, e, x])
+        return e
+
+    top = holder(rng.randint(0, 2))
+    for _ in range(rng.randint(0, 2)):
+        parent = elem()
+        before = content(0) if rng.random() < 0.5 else []
+        for x in before:
+            ops.append([APPEND, parent, x])
+        ops.append([APPEND, parent, top])
+        if rng.random() < 0.5:
+            ops.append([APPEND, parent, text()])
+        top = parent
+    ops.append([NORMALIZE, top])
+    r = rng.random()
+    if r < 0.4:
+        ops.append([NORMALIZE, top])
+    elif r < 0.6:
+        ops.append([CLONE, top])
+    n = count[0]
+    qs = []
+    for x in rng.sample(range(n), min(n, 8)):
+        qs.append([1, x])
+        qs.append([2, x, rng.randint(0, 2)])
+        qs.append([0, x])
+    return dict(kind='hist', ops=ops, queries=qs)
+
+
 HAND = [
     # the design-time probes and the shapes the statement names
     ('p[-1] = x', [[SETITEM, 1, -1, 5]]),
@@ -943,6 +1050,11 @@ HAND = [
     ('stale parentNode of a removed node leads back into its own tree',
      [[APPEND, 5, 6], [REMOVE, 5, 6], [APPEND, 6, 5], [APPEND, 5, 9], [APPEND, 5, 10], [APPEND, 5, 11]], [[3, 9, 11]]),
     ('deep order', [[APPEND, 2, 5], [APPEND, 5, 9], [APPEND, 5, 6], [APPEND, 5, 10], [APPEND, 3, 11]]),
+    ('normalize reaches a fragment held in an attribute of an element that never had a child list',
+     [[APPEND, 7, 9], [APPEND, 7, 10], [SETATTR, 5, 0, 7], [NORMALIZE, 5]]),
+    ('... and from an ancestor, through a holder whose children were removed again, nested',
+     [[APPEND, 8, 10], [APPEND, 8, 11], [SETATTR, 6, 1, 8], [APPEND, 7, 9], [APPEND, 7, 6], [SETATTR, 5, 0, 7],
+      [APPEND, 5, 2], [POP, 5, -1], [APPEND, 4, 5], [NORMALIZE, 1], [NORMALIZE, 1]]),
 ]
 
 
@@ -966,6 +1078,9 @@ def streams(rng, tier, boost):
     # quick: every state after one operation and a sample of 250 of the states after two (all of them in the thorough tier)
     explore(rng, [[CDOC]] + pre_m, alpha_m, 4 if thorough else 3, 2500 if thorough else 250 * boost, 'exhaustive-small', out,
             1500 if thorough else 200)
+    # (a') attribute-held fragments under normalize
+    for i in range((150 if not thorough else 1500) * boost):
+        out.append(('attr-normalize', attr_history(rng)))
     # (b) random histories
     n = (1200 if not thorough else 12000) * boost
     for i in range(n):
